@@ -2,7 +2,7 @@
    MemFile.v preserves the invariant.  Each proof shows that the call's own
    decision logic (the result of the path walk plus its explicit tests)
    establishes the preconditions of one mutator lemma of InvMutators.v. *)
-From Avfs Require Import Base BaseProofs PathModel MemFS MemFile World Inv InvMutators InvSearch.
+From Avfs Require Import Base BaseProofs PathModel MemFS MemFile World Inv InvMutators InvSearch InvHandles.
 
 Section Calls.
   Variables (s : fsys) (v : view).
@@ -153,5 +153,109 @@ Section Calls.
     destruct (get (f_heap s) c) as [[[|e ch] m|dt k id m|lk m]|] eqn:Eg;
       try (apply Hgo; rewrite children_get, Eg; reflexivity).
     now apply step_ok_refl.
+  Qed.
+  (* ---- OpenFile, WriteFile ------------------------------------------------------------ *)
+  (* the local function open_existing of open_file *)
+  Definition oe (vi : nat) (name : str) (om : N) (c : nat) : fsys * (res + handle) :=
+    match get (f_heap s) c with
+    | Some (NFile d k i m) =>
+        if negb (check_permission m om (v_user v)) then (s, inl (RFail EPermDenied))
+        else if has om OpenCreateExcl then (s, inl (RFail EFileExists))
+        else
+          let d1 := if has om OpenTruncate then [] else d in
+          let at_ := if has om OpenAppend then Z.of_nat (length d1) else 0%Z in
+          (with_heap s (upd (f_heap s) c (NFile d1 k i m)), inr (new_handle c vi name at_ om))
+    | Some (NDir _ m) =>
+        if has om OpenWrite then (s, inl (RFail EIsADirectory))
+        else if negb (check_permission m om (v_user v)) then (s, inl (RFail EPermDenied))
+        else (s, inr (new_handle c vi name 0 om))
+    | _ => (s, inr (new_handle c vi name 0 om))
+    end.
+
+  Lemma open_file_unfold vi name flag perm :
+    open_file s v vi name flag perm =
+    let om := to_open_mode flag in
+    let r := search_node s v name SlEval in
+    let e := sr_err r in
+    if (negb (is_file_exists e) && negb (is_not_exist e)) || negb (pi_is_last (sr_pi r)) then (s, inl (RFail e))
+    else
+      if is_not_exist e then
+        if negb (has om OpenCreate) then (s, inl (RFail e))
+        else match sr_parent r with
+             | None => (s, inl RPanic)
+             | Some parent =>
+                 if negb (has om OpenWrite) || negb (perm_on (f_heap s) parent (N.lor OpenWrite OpenLookup) (v_user v))
+                 then (s, inl (RFail EPermDenied))
+                 else
+                   match alk (pi_part (sr_pi r)) (children (f_heap s) parent) with
+                   | None =>
+                       let '(s1, c) := create_file s v parent (pi_part (sr_pi r)) perm in
+                       (s1, inr (new_handle c vi name 0 om))
+                   | Some c => oe vi name om c
+                   end
+             end
+      else match sr_child r with
+           | Some c => oe vi name om c
+           | None => (s, inl RPanic)
+           end.
+  Proof. reflexivity. Qed.
+
+  Definition open_post (x : fsys * (res + handle)) : Prop :=
+    step_ok s (fst x) /\ forall f, snd x = inr f -> handle_ok (f_heap (fst x)) f.
+
+  Lemma open_post_stay r : open_post (s, inl r).
+  Proof. split; [stay | discriminate]. Qed.
+
+  Lemma oe_ok vi name om c : c < length (f_heap s) -> open_post (oe vi name om c).
+  Proof.
+    intros Hc. unfold oe.
+    assert (Hh : open_post (s, inr (new_handle c vi name 0 om))).
+    { split; [stay|]. cbn [snd fst]. intros f [= <-] c'. cbn [new_handle hd_node]. now intros [= <-]. }
+    destruct (get (f_heap s) c) as [[ch m|d k i m|lk m]|] eqn:Eg; try exact Hh.
+    - destruct (has om OpenWrite); [apply open_post_stay|].
+      destruct (negb (check_permission m om (v_user v))); [apply open_post_stay | exact Hh].
+    - destruct (negb (check_permission m om (v_user v))); [apply open_post_stay|].
+      destruct (has om OpenCreateExcl); [apply open_post_stay|].
+      cbv zeta.
+      destruct (Inv_heap_set_data _ c d k i m (if has om OpenTruncate then [] else d) IH Eg) as [H1 H2].
+      split; cbn [fst snd].
+      + now apply step_ok_with_heap.
+      + intros f [= <-] c'. cbn [new_handle hd_node with_heap f_heap]. intros [= <-]. rewrite upd_length. exact Hc.
+  Qed.
+
+  Lemma open_file_ok vi name flag perm : open_post (open_file s v vi name flag perm).
+  Proof.
+    rewrite open_file_unfold. cbv zeta.
+    set (r := search_node s v name SlEval).
+    pose proof (srch name SlEval ltac:(discriminate)) as HP. fold r in HP.
+    destruct ((negb (is_file_exists (sr_err r)) && negb (is_not_exist (sr_err r))) || negb (pi_is_last (sr_pi r)));
+      [apply open_post_stay|].
+    destruct (is_not_exist (sr_err r)) eqn:Ene.
+    - destruct (negb (has (to_open_mode flag) OpenCreate)); [apply open_post_stay|].
+      destruct (search_post_not_exist _ _ HP Ene) as (p & Hp1 & Hp2 & _ & Hn). rewrite Hp1.
+      destruct (negb (has (to_open_mode flag) OpenWrite)
+                || negb (perm_on (f_heap s) p (N.lor OpenWrite OpenLookup) (v_user v))); [apply open_post_stay|].
+      rewrite Hn. cbn [create_file].
+      destruct (Inv_heap_create (f_heap s) p (pi_part (sr_pi r))
+                  (NFile [] 1 (f_last_id s + 1)%N (new_meta v (file_mode (v_os v)) perm)) IH Hp2 Hn) as [H1 H2].
+      { split; auto. }
+      split; cbn [fst snd].
+      + split; auto.
+      + intros f [= <-] c'. cbn [new_handle hd_node f_heap]. intros [= <-].
+        rewrite add_child_length, app_length. cbn [length]. lia.
+    - destruct (sr_child r) as [c|] eqn:Ec; [|apply open_post_stay].
+      apply oe_ok. eapply search_child_valid; eauto.
+  Qed.
+
+  Lemma write_file_ok name data perm : step_ok s (fst (write_file s v name data perm)).
+  Proof.
+    unfold write_file.
+    destruct (open_file_ok 0 name (O_WRONLY + O_CREATE + O_TRUNC)%N perm) as [H1 _].
+    destruct (open_file s v 0 name (O_WRONLY + O_CREATE + O_TRUNC)%N perm) as [s1 [r|f]]; [stay|].
+    cbn [fst] in H1.
+    pose proof (f_write_ok s1 v f (proj1 H1) data) as H2.
+    destruct (f_write s1 v f data) as [[s2 f'] r]. cbn [fst] in H2.
+    assert (H3 : step_ok s s2) by (eapply step_ok_trans; eauto).
+    destruct r; exact H3.
   Qed.
 End Calls.
